@@ -58,10 +58,13 @@ pub fn load() -> Vec<CorpusFile> {
     out
 }
 
-const OWN: [(&str, &str, &str); 5] = [
+const OWN: [(&str, &str, &str); 8] = [
     ("own/lists.lua", "Lua51", include_str!("../corpus/lists.lua")),
     ("own/calls.lua", "Lua51", include_str!("../corpus/calls.lua")),
     ("own/strings.lua", "Lua51", include_str!("../corpus/strings.lua")),
     ("own/luau_types.luau", "Luau", include_str!("../corpus/luau_types.luau")),
     ("own/lua54.lua", "Lua54", include_str!("../corpus/lua54.lua")),
+    ("own/unicode.lua", "Lua51", include_str!("../corpus/unicode.lua")),
+    ("own/misc.lua", "Lua51", include_str!("../corpus/misc.lua")),
+    ("own/luau2.luau", "Luau", include_str!("../corpus/luau2.luau")),
 ];
